@@ -57,8 +57,8 @@ class GenericSrv6ServiceDataSubSubTlv:
         return 'SRv6 Service Data Sub-Sub-TLV type %d not implemented' % self.code
 
     def json(self, compact: bool | None = None) -> str:
-        # Generic/unknown TLV - show type code and hex data
-        return f'{{"type": {self.code}, "raw": "{bytes(self._packed).hex()}"}}'
+        # this one is a member of the SID information object, not an element of a list: it needs a key
+        return f'"sub-sub-tlv-{self.code}": "{bytes(self._packed).hex()}"'
 
     def pack_tlv(self) -> Buffer:
         return self._packed
